@@ -485,6 +485,45 @@ func DumpHelpersIn(p *load.Program, tb *kinds.Table, rel string) *report.RuleRes
 		why := im.dumpBalance(fd, roles)
 		res.Check(why == "", "brackets/"+name, im.pos(fd), "Dumper."+name, "brackets in emitted constants balance and the indent returns to its entry value on every path; loops are neutral", why)
 	}
+	// --- no value is ever used as a format: every printf-style call in the package has a constant format
+	// (seed C16-11: print() collapsed into Fprintf(w, tabs+str); a '%' in a token or string is then read as a verb)
+	if im.Pkg != nil {
+		info := im.info()
+		for _, fd := range load.FuncDecls(im.Pkg) {
+			fname := fd.Name.Name
+			ast.Inspect(fd.Body, func(x ast.Node) bool {
+				call, ok := x.(*ast.CallExpr)
+				if !ok {
+					return true
+				}
+				fn, _ := typeutil.Callee(info, call).(*types.Func)
+				if fn == nil {
+					return true
+				}
+				sig, _ := fn.Type().(*types.Signature)
+				if sig == nil {
+					return true
+				}
+				for i := 0; i < sig.Params().Len() && i < len(call.Args); i++ {
+					prm := sig.Params().At(i)
+					if prm.Name() != "format" {
+						continue
+					}
+					if b, ok := prm.Type().Underlying().(*types.Basic); !ok || b.Kind() != types.String {
+						continue
+					}
+					res.Count("format-calls", 1)
+					key := "format/" + fname + "/" + fn.Name()
+					if tv := info.Types[call.Args[i]]; tv.Value != nil {
+						res.OK(key, im.pos(call), fname, "constant format string")
+					} else {
+						res.Bad(key, im.pos(call), fname, fmt.Sprintf("%s is called with the computed format %s: text of the tree that contains '%%' is interpreted as formatting verbs instead of being written as it is", fn.FullName(), exprString(call.Args[i])))
+					}
+				}
+				return true
+			})
+		}
+	}
 	// --- gates: which functions read withTokens / withPositions
 	for _, name := range names {
 		fd := im.Methods[name]
